@@ -411,6 +411,34 @@ func runC04(w *World, r *Report) {
 
 	shareRule(w, r, "C04.stream-errors-forwarded", "the forwarding goroutines behind a fan-in pass error items on and stop only at io.EOF or a closed receiver: an error item in a keyed / converted stream is an error of the run in every paradigm, not a silent end of data in the streaming ones", 1, "C17", "C17.stream-errors-forwarded")
 
+	r.Rule("C04.dynamic-retype-checked", "the helper that retypes interface-typed chunks by their dynamic type compares the dynamic type of every chunk with the element type it builds the typed slice from (a comparison of two reflect.Type values inside it), so that chunks of mixed types fall back to the generic error instead of making reflect.Value.Set panic — outside a node task (Collect at top level, a stream in front of a branch) that panic escapes, where Invoke returns an error", 1)
+	{
+		ci := w.Fn("internal", "ConcatItems")
+		var helper *ssa.Function
+		instrs(ci, func(in ssa.Instruction) {
+			if c, ok := in.(*ssa.Call); ok {
+				if sc := staticCallee(c); sc != nil && w.inRepo(sc) && w.relPkg(fnPkg(sc).Path()) == "internal" && len(callsToName(sc, "reflect.MakeSlice")) > 0 {
+					helper = sc
+				}
+			}
+		})
+		if helper == nil {
+			undecidedf("C04.dynamic-retype-checked: ConcatItems calls no retyping helper that builds a slice with reflect.MakeSlice")
+		}
+		cmp := false
+		instrs(helper, func(in ssa.Instruction) {
+			b, ok := in.(*ssa.BinOp)
+			if !ok || !(b.Op == token.EQL || b.Op == token.NEQ) {
+				return
+			}
+			isRT := func(v ssa.Value) bool { return v.Type().String() == "reflect.Type" && !isNilConst(v) }
+			if isRT(b.X) && isRT(b.Y) {
+				cmp = true
+			}
+		})
+		r.Check(cmp, "C04.dynamic-retype-checked", helper.Name()+" compares the chunks' dynamic types", helper.Pos(), "a reflect.Type == / != reflect.Type test in the helper", "the typed slice is built from the first chunk's type and the others are Set into it unchecked: a stream-only node with output `any` that emits a string chunk and then an int chunk makes reflect.Value.Set panic — recovered inside a node task (Invoke: an error), escaping from Collect at top level or from a stream in front of a branch")
+	}
+
 	// ---- role-uniform (generalises in-out-wiring to every struct and function of the module)
 	r.Rule("C04.role-uniform", "within one function, same-role fields (input* / output*, pre* / post*) of one struct are filled from sources of one role; a lone cross-role assignment is a copy within one object", 20)
 	ruleRoleUniform(w, r, "C04.role-uniform", "compose", "schema", "internal", "flow", "callbacks", "components", "utils")
